@@ -5,7 +5,7 @@ from pyvc.task import Task
 from pyvc.vc import veq
 from pyvc.loops import LoopSpec, Any
 from pyvc.libfile import RFile, WFile, f_size, hdrlen
-from contracts.common import sym_path, Fab, fab_facts
+from contracts.common import sym_path, Fab, fab_facts, size_of
 from props.C01 import ASSUMPTIONS as A01, TRUSTED as T01
 
 CO = "amr_kitchen.colander.colander."
@@ -56,7 +56,7 @@ class StrainWorker(Task):
             fb = fab(j)
             return z3.Implies(z3.And(j >= 0, j < m), z3.And(
                 *[to_z3(f) for f in fab_facts(fb, True)],
-                OUT(j + 1) == OUT(j) + hdrlen(fb.lo, fb.hi, nk) + 8 * to_z3(fb.N) * nk))
+                OUT(j + 1) == OUT(j) + hdrlen(fb.lo, fb.hi, nk) + 8 * size_of(ctx, list(fb.shape) + [nk])))
         kept = SymSeq(nk, lambda i: K(to_z3(i)), "list")
         args = {"bfile_r": pr, "bfile_w": pw, "nvars": nvars, "kept_fields": kept,
                 "box_indexes": SymSeq(m, lambda j: [Vec(fab(j).lo), Vec(fab(j).hi)], "ndarray"),
